@@ -35,6 +35,8 @@ from aldy.solutions import CNSolution
 PROPERTY = "C02"
 LEVEL = "model_checking"
 FUNCTIONS = [
+    "aldy.lpinterface.Gurobi.solutions (enumerator contract, shared with C05)",
+    "aldy.coverage.Coverage.{coverage,total}",
     "aldy.major.estimate_major", "aldy.major._filter_alleles",
     "aldy.major.solve_major_model", "aldy.major._print_candidates",
     "aldy.coverage.Coverage.{single_copy,percentage,__getitem__,dump}",
@@ -44,7 +46,7 @@ FUNCTIONS = [
 ]
 STUBS = [
     "lpinterface.model -> z3-capturing backend (capture mode: solutions() yields nothing)",
-    "Coverage.coverage/total -> symbolic counts; Coverage.filtered -> identity "
+    "observation lists have symbolic lengths (the real Coverage.coverage/total run on them with len/sum/float shadows); Coverage.filtered -> identity "
     "(the filters themselves are C15)",
 ]
 OUTSIDE = [
@@ -114,6 +116,10 @@ def configs(tier):
                                           if tier == "thorough" else ()):
         for genome in ("hg19", "hg38"):
             c.append({"gene": g, "genome": genome, "cn": st, "mode": "readout"})
+    # de-duplication across two enumerated points (three copies: same allele set with
+    # different multiplicities)
+    for genome in ("hg19", "hg38") if tier == "thorough" else ("hg19",):
+        c.append({"gene": "GC", "genome": genome, "cn": ["1", "1", "1"], "mode": "readout2"})
     small = ["cyp2c19", "cyp2c9", "cyp3a5", "tpmt", "nudt15", "slco1b1"]
     if tier == "quick":
         for g in small[:2]:
@@ -146,6 +152,11 @@ def configs(tier):
                 c.append({"gene": "toy", "genome": genome, "cn": st, "mode": "noise"})
             c.append({"gene": "GA", "genome": genome, "cn": ["1", "1", "5", "6"],
                       "mode": "noise"})
+    # the clauses "first reported is optimal / all reported lie within the gap / complete"
+    # rest on the solution enumerator: its contract on an uninterpreted model family
+    # (shared with C05)
+    for gap in ("0", "0.1", "sym"):
+        c.append({"kind": "enum", "n": 2, "gap": gap, "limit": None})
     return c
 
 
@@ -215,8 +226,13 @@ def build_evidence(gene, cn_list, cfg):
 
 
 def run_config(cfg):
+    if cfg.get("kind") == "enum":
+        import c05
+        return c05.run_enum(cfg)
     if cfg["mode"] == "readout":
         return run_readout(cfg)
+    if cfg["mode"] == "readout2":
+        return run_readout2(cfg)
     res = new_result(cfg)
     gene = gengene.load(cfg["gene"], cfg["genome"])
     cn_list = list(cfg["cn"])
@@ -314,6 +330,102 @@ def run_readout(cfg):
                          floor=(profile.major_novel + 0.1 * len(want_novel)
                                 if want_novel else 0.0)):
                 done.add("readout")
+    seen = {}
+    for v in res["violations"]:
+        seen.setdefault(v["key"], v)
+    res["violations"] = list(seen.values())
+    res["stats"] = {**dict(eng.stats), "readout_points": n}
+    res["obligations"] = [{"label": o["label"], "status": o["status"], "secs": 0}
+                          for o in res["obligations"]]
+    return res
+
+
+def run_readout2(cfg):
+    """
+    De-duplication across enumerated solutions: the solver stub yields TWO arbitrary
+    feasible points (the second one of the model including the exclusion cut); the real
+    loop must return exactly the distinct decoded points (alleles with multiplicity, novel
+    variants), each once, in the order they were yielded.
+    """
+    import aldy.major as major
+    import aldy.common
+
+    res = new_result(cfg)
+    gene = gengene.load(cfg["gene"], cfg["genome"])
+    cn_list = list(cfg["cn"])
+    profile = Profile("verif")
+    counts, totals, base, xs, planted, core_used = build_evidence(
+        gene, cn_list, {**cfg, "mode": "noise"})
+    cov = stagelib.SymCoverage(gene, profile, counts, totals)
+    cn_sol = CNSolution(gene, 0, cn_list)
+    eng = Engine(name="c02r2", timeout_ms=120000)
+    tag = f"readout2/{cfg['gene']}/{cfg['genome']}/{','.join(cn_list)}"
+    state = {}
+
+    def run():
+        aldy.common.json.clear()
+        ys = []
+        state["ys"] = ys
+        oracle = symx.PointOracle(eng, points=2)
+        state["oracle"] = oracle
+        with symx.install(oracle=oracle) as inst:
+            orig = inst.cls.solutions
+
+            def recording(self, *a, **k):
+                if len(a) > 1 or k:  # the generator's own recursive call
+                    yield from orig(self, *a, **k)
+                    return
+                for y in orig(self, *a, **k):
+                    ys.append(y)
+                    yield y
+
+            inst.cls.solutions = recording
+            r = major.estimate_major(gene, cov, cn_sol, "z3")
+            state["m"] = inst.models[-1] if inst.models else None
+            return r
+
+    def decode(names):
+        raw = [state["m"].byname[n][0].raw for n in names]
+        al = sorted(n[2:].rsplit("_", 1)[0] for n in raw if n.startswith("A_"))
+        nv = sorted(n[2:] for n in raw if n.startswith("N_"))
+        return tuple(al), tuple(nv)
+
+    n = 0
+    done = set()
+    for dec, pc, sols in eng.explore(run, base, max_paths=50000):
+        m = state["m"]
+        if m is None or not m.vars or not state["ys"]:
+            continue
+        n += 1
+        want = []
+        for y in state["ys"]:
+            d = decode(y[2])
+            if d not in want:
+                want.append(d)
+        got = [(tuple(sorted(a.major for a, c in s_.solution.items() for _ in range(c))),
+                tuple(sorted(str(x) for x in s_.added))) for s_ in sols]
+        good = got == want
+        ob(res, f"{tag}: the enumerated points are returned once each (distinct allele "
+                "multisets / novel sets stay distinct, repeated ones are merged)",
+           "holds" if good else "sat")
+        if not good and "dedup" not in done and len(state["ys"]) == 2:
+            orc = state["oracle"]
+            st, mdl = eng.satisfiable([])
+            if st != "sat":
+                continue
+            fix = []
+            for v in m.vars:
+                if v.kind == "B":
+                    for t in (v.zv, orc.at(m, v.zv, 2)):
+                        fix.append(t if z3.is_true(mdl.eval(t, model_completion=True))
+                                   else z3.Not(t))
+            named = [c.z3() for c in m.constrs if c.name and c.name[0] is not None]
+            o1, o2 = m.obj_z3(), orc.at(m, m.obj_z3(), 2)
+            if violation(eng, res, cfg, gene, cn_list, xs, totals,
+                         named + [orc.at(m, c, 2) for c in named] + fix + [o1 == o2],
+                         f"two enumerated points {want} are returned as {got}", "dedup",
+                         obj=o1):
+                done.add("dedup")
     seen = {}
     for v in res["violations"]:
         seen.setdefault(v["key"], v)
@@ -625,6 +737,9 @@ def concrete_counts(gene, o):
 
 def replay(o):
     """Real estimate_major + CBC on the concrete table; judged by enumeration."""
+    if o.get("kind") == "enum":
+        import c05
+        return c05.replay_enum(o)
     import aldy.major as major
 
     gene = gengene.load(o["gene"], o["genome"])
